@@ -2,6 +2,7 @@
 mod c06;
 mod c07;
 mod c11;
+mod c18;
 mod script;
 
 use vcommon::{Args, Report};
@@ -13,6 +14,7 @@ fn main() {
         "C06" => c06::run(&args),
         "C07" => c07::run(&args),
         "C11" => c11::run(&args),
+        "C18" => c18::run(&args),
         other => panic!("httpdirect: unknown property {}", other),
     };
     report.write(&args.out);
